@@ -501,8 +501,9 @@ def write_evidence(prop, tier, seed, level, coverage, assumptions, wall, nviol):
         pass
     except FileNotFoundError:
         pass
-    os.makedirs(os.path.join(VERIF, "evidence"), exist_ok=True)
-    path = os.path.join(VERIF, "evidence", prop + ".json")
+    outdir = os.environ.get("VERIF_OUT") or VERIF  # VERIF_OUT: scratch output root for runs against modified trees
+    os.makedirs(os.path.join(outdir, "evidence"), exist_ok=True)
+    path = os.path.join(outdir, "evidence", prop + ".json")
     tmp = path + ".tmp%d" % os.getpid()
     with open(tmp, "w") as f:
         f.write(text + "\n")
@@ -511,7 +512,7 @@ def write_evidence(prop, tier, seed, level, coverage, assumptions, wall, nviol):
 
 
 def write_replay(prop, v):
-    d = os.path.join(VERIF, "replays", prop)
+    d = os.path.join(os.environ.get("VERIF_OUT") or VERIF, "replays", prop)
     os.makedirs(d, exist_ok=True)
     path = os.path.join(d, case_key(v["case"]) + ".json")
     body = {
